@@ -249,7 +249,13 @@ func boundSource(c *Term) (x, y *Term, strict, ok bool) {
 	if a.sort.bv != 64 {
 		return nil, nil, false, false
 	}
-	side := func(t *Term) bool { return t.isConst() || (isAtom64(t) && t.op != "ite") }
+	side := func(t *Term) bool {
+		if t.isConst() || (isAtom64(t) && t.op != "ite") {
+			return true
+		}
+		_, _, ok := atomPlusConst(t)
+		return ok
+	}
 	if !side(a) || !side(b) || (a.isConst() && b.isConst()) {
 		return nil, nil, false, false
 	}
@@ -277,10 +283,23 @@ func collectBounds(conj []*Term) (*boundsCtx, map[int]bool) {
 		}
 		return v
 	}
+	// sums "atom + c" that occur as a side of a bound (rangeindex+1 <= len): the sum is bounded like an atom,
+	// and once both of its bounds are known the atom's interval follows exactly (atom = sum - c modulo 2^64,
+	// and the sum's value is known not to be near the wrap-around)
+	type pseudoT struct {
+		sum, atom *Term
+		c         *big.Int
+	}
+	pseudo := map[int]pseudoT{}
 	for _, c := range conj {
 		if x, y, strict, ok := boundSource(c); ok {
 			sources[c.id] = true
 			rels = append(rels, rel{x, y, strict})
+			for _, t := range []*Term{x, y} {
+				if a, k, ok := atomPlusConst(t); ok {
+					pseudo[t.id] = pseudoT{t, a, k}
+				}
+			}
 		}
 	}
 	adj := func(strict bool) *big.Int {
@@ -322,6 +341,36 @@ func collectBounds(conj []*Term) (*boundsCtx, map[int]bool) {
 				if v.hi == nil || nh.Cmp(v.hi) < 0 {
 					v.hi = nh
 					changed = true
+				}
+			}
+		}
+		for _, p := range pseudo {
+			if v := bc.b[p.sum.id]; v != nil && v.lo != nil && v.hi != nil {
+				lo, hi := new(big.Int).Sub(v.lo, p.c), new(big.Int).Sub(v.hi, p.c)
+				if lo.Cmp(safeLo) >= 0 && hi.Cmp(safeHi) <= 0 {
+					a := get(p.atom)
+					if a.lo == nil || lo.Cmp(a.lo) > 0 {
+						a.lo = lo
+						changed = true
+					}
+					if a.hi == nil || hi.Cmp(a.hi) < 0 {
+						a.hi = hi
+						changed = true
+					}
+				}
+			}
+			if a := bc.b[p.atom.id]; a != nil && a.lo != nil && a.hi != nil {
+				lo, hi := new(big.Int).Add(a.lo, p.c), new(big.Int).Add(a.hi, p.c)
+				if lo.Cmp(safeLo) >= 0 && hi.Cmp(safeHi) <= 0 {
+					v := get(p.sum)
+					if v.lo == nil || lo.Cmp(v.lo) > 0 {
+						v.lo = lo
+						changed = true
+					}
+					if v.hi == nil || hi.Cmp(v.hi) < 0 {
+						v.hi = hi
+						changed = true
+					}
 				}
 			}
 		}
@@ -613,4 +662,20 @@ func isPow2(c *big.Int) bool {
 		return false
 	}
 	return new(big.Int).And(c, new(big.Int).Sub(c, big1)).Sign() == 0 && c.Cmp(big1) > 0
+}
+
+// atomPlusConst recognises a sum "atom + c" (coefficient 1, c != 0).
+func atomPlusConst(t *Term) (*Term, *big.Int, bool) {
+	if t.sort.bv != 64 || t.op != "bvadd" || t.bound {
+		return nil, nil, false
+	}
+	lf := linDecompose(t)
+	if len(lf.ids) != 1 || lf.coef[lf.ids[0]].Cmp(big1) != 0 || lf.c.Sign() == 0 {
+		return nil, nil, false
+	}
+	a := lf.atoms[lf.ids[0]]
+	if !isAtom64(a) || a.op == "ite" {
+		return nil, nil, false
+	}
+	return a, lf.c, true
 }
